@@ -452,7 +452,10 @@ def stringify_operand(node: Node, operator: str) -> str:
 
     elif operator == "{}":
         # A `:` ends the expression there, so a lambda has to be inside parentheses
-        precedence = 3
+        text = _stringify_item(node, 3)
+
+        # `{{` would be an escaped brace
+        return f" {text}" if text.startswith("{") else text
 
     elif operator == "not":
         precedence = 5
